@@ -205,6 +205,7 @@ class Result:
         self.caps = []
         self.findings = Findings()
         self._distinct = set()
+        self.machinery = []       # problems of the machinery met on the way (reported; fatal only without a verdict)
 
     # coverage helpers
     def count(self, n=1):
@@ -275,7 +276,13 @@ class Result:
         log("[%s] tier=%s evaluations=%d distinct=%d exhaustive=%s violations=%d known=%d wall=%.1fs" % (
             self.prop, self.tier, cov["evaluations"], cov["distinct_nontrivial"], cov.get("exhaustive"), len(unknown),
             sum(n for _, n in known.values()), time.time() - self.t0))
-        return EXIT_VIOLATION if unknown else EXIT_OK
+        if unknown:
+            for m in self.machinery:
+                log("MACHINERY-NOTE property=%s %s" % (self.prop, m))
+            return EXIT_VIOLATION
+        if self.machinery:
+            raise MachineryError("; ".join(self.machinery[:3]))
+        return EXIT_OK
 
 
 def validate_evidence(ev):
